@@ -985,3 +985,45 @@ def asm_prog_nodes(arg: dict) -> dict:
             ev[idx]["n3"] = b
     out["nodes"] = [{"i": i, **v} for i, v in sorted(ev.items()) if "in1" in v and "in3" in v]
     return out
+
+
+# ------------------------------------------------------------------------------------------
+# syntax layer (Ast.tla): the parser's tree for a rendered APR program, flattened to string tokens
+# ------------------------------------------------------------------------------------------
+def _flat(x) -> list:
+    import enum
+    if x is None:
+        return ["None"]
+    if isinstance(x, str):
+        return ["'" + x]
+    if isinstance(x, enum.Enum):
+        return ["@" + x.name]
+    if isinstance(x, (bool, int)):
+        return ["#" + str(int(x))]
+    if isinstance(x, dict):
+        out = ["{"]
+        for k in sorted(x):
+            out += _flat(k) + _flat(x[k])
+        return out + ["}"]
+    if isinstance(x, (list, tuple)):
+        out = ["("]
+        for y in x:
+            out += _flat(y)
+        return out + [")"]
+    return ["<" + type(x).__name__ + ">"]
+
+
+def ast_of(arg: dict) -> dict:
+    """Render an APR program, parse it with the real parser, return the flattened tree."""
+    from a816.parse.mzparser import MZParser
+    from a816.symbols import Resolver
+    from harness import apr
+    src, files = apr.render(arg["prog"])
+    write_files(files)
+    try:
+        r = MZParser(Resolver()).parse_as_ast(src, "memory.s")
+        if r.error is not None:
+            return {"parsed": False, "flat": [], "err": str(r.error)[-300:], "src": src}
+        return {"parsed": True, "flat": _flat([n.to_representation() for n in r.nodes]), "err": None, "src": src}
+    except BaseException as e:  # noqa: BLE001
+        return {"parsed": False, "flat": [], "err": f"{type(e).__name__}: {e}", "src": src}
